@@ -211,7 +211,9 @@ class MyPyAstVisitor:
 
                 # Check if the superclass name is an alias and find the real name
                 if superclass_name in self.aliases:
-                    _, superclass_alias_qname = self._find_alias(superclass_name, superclass_qname)
+                    # If mypy resolved the superclass to a class, its qualified name is already the real one
+                    known_qname = superclass_qname if isinstance(getattr(superclass, "node", None), mp_nodes.TypeInfo) else ""
+                    _, superclass_alias_qname = self._find_alias(superclass_name, known_qname)
                     superclass_qname = superclass_alias_qname if superclass_alias_qname else superclass_qname
 
                 superclasses.append(superclass_qname)
@@ -1173,6 +1175,10 @@ class MyPyAstVisitor:
         if name and qname:
             return name, qname
 
+        if known_qname:
+            # The caller already knows the qualified name of the definition, the name is not an alias
+            return known_qname.split(".")[-1], known_qname
+
         if type_name in self.aliases:
             qnames: set = self.aliases[type_name]
             if len(qnames) == 1:
@@ -1181,10 +1187,6 @@ class MyPyAstVisitor:
                 name = qname.split(".")[-1]
             else:
                 # In this case some types where defined in multiple modules with the same names.
-                if known_qname in qnames:
-                    # The qualified name the caller already knows is one of these definitions
-                    return known_qname.split(".")[-1], known_qname
-
                 # Sorted, so that the choice does not depend on the iteration order of the set
                 for alias_qname in sorted(qnames):
                     # We check if the type was defined in the same module
